@@ -18,13 +18,17 @@ EXPLANATION = (
     'next character) to the parser step in the corresponding parser state: exactly that byte and its mask classification are appended and the state is restored '
     '(all 256 bytes x all mask bytes x both mask states x any look-ahead; loop-free). With the bracket lemma (opening/closing quote), the initial-state lemma and the '
     'classification contract of the whole formatter (quoted form iff strings not suppressed and every byte printable; loop contracts, ghost index + witness) this is the '
-    'induction step of parse(format(x, mask)) == (x, mask) for strings of any length; the composition itself is machine-checked only up to a bound (bounded group).')
+    'induction step of parse(format(x, mask)) == (x, mask) for strings of any length; the composition itself is machine-checked only up to a bound (bounded group). '
+    'Hex dump: only the line geometry of format_data\'s main loop is decided -- the loop header, the declarations it uses, the four geometry statements, the address-width '
+    'selection and the interior-line test of zero-line collapsing are cut from the source as snippets and assembled into a loop skeleton (visits exactly the lines that '
+    'intersect the range, once each, terminates: loop contract) and a loop-free per-line function (blank columns, bytes per line, column = address & 15, telescoping byte '
+    'count, first/last line never collapsed, narrowest address width), for every start address and size whose last byte has an address.')
 TRUSTED = [
     'stubs/C09_str.h: own stubs of C09 -- the two std::string models (full vstr model; append-only "tail" model: total size + first byte + bytes appended in the current '
     'loop iteration), append/fill/literal-append bodies, printf("%02X") = two upper-case hex digits, strtoull/strtod/strtof (end pointer between nptr and the terminating NUL, '
     'abstract value), load_file (must be unreachable)',
     'stubs/vstr.h (std::string model shared with C01/C02/C08)',
-    'contracts/C09_glue.h, C09_step.h, C09_parse.h, C09_format.h: the specification macros (printable set, escape table, widths selected by #/%, byte order) written from the '
+    'contracts/C09_glue.h, C09_step.h, C09_parse.h, C09_format.h, C09_wrapper.h, C09_lines.h: the specification macros (printable set, escape table, widths selected by #/%, byte order) written from the '
     'property statement and the construct comments of parse_data_string',
     'the induction that lifts the step lemmas to strings of any length (stated in EXPLANATION, not machine-checked; machine-checked instances: lengths <= 3 / <= 5)',
 ]
@@ -40,10 +44,13 @@ DROPS = ('std::string result -> out-parameter (OUT_STR), s.c_str() -> (const cha
          'string_printf("%02X", v) -> printf model, strtoull/strtod/strtof/load_file -> stubs, const_cast/reinterpret_cast -> C casts, constexpr host_big_endian -> enum from '
          'Platform.hh\'s byte-order #if (extracted), enumerators ParseDataFlags::ALLOW_FILES / FormatDataFlags::SKIP_STRINGS -> values read from Strings.hh; for the step function '
          'the locals of parse_data_string that live across iterations become file-scope state, `return data;` inside the loop -> flag g_returned; for the loop skeleton the loop body '
-         'is replaced by the call of the step function plus ghost bindings')
+         'is replaced by the call of the step function plus ghost bindings; hex dump: snippets of format_data (declarations from end_address on, width if-chain, for header, geometry '
+         'statements, interior test) assembled into fd_line_loop / fd_line, max<int64_t> -> macro, PrintDataFlags::X -> values read from Strings.hh')
 NOT_DECIDED = [
-    'hex dump (format_data core, print_data/format_data overloads): NOT decided by this technique -- generic lambda, std::function, string_printf("%0*llX"/" %02X"/"%g"), terminal '
-    'escapes; none of: address/hex/ASCII column fidelity, start address / flag combinations, diff highlighting, zero-line collapsing, iovec partition independence',
+    'hex dump (format_data core, print_data/format_data overloads): NOT decided by this technique except for the line geometry (groups format_data.line_loop / line_geometry) -- '
+    'generic lambda, std::function, string_printf("%0*llX"/" %02X"/"%g"), terminal escapes; not decided: the text of the address/hex/ASCII/float columns, flag combinations other '
+    'than the OFFSET_* width selection, diff highlighting, WHICH all-zero interior lines are omitted (only: first and last line are never candidates), the iovec cursors and '
+    'partition independence (the geometry shows that the lines ask for exactly `size` bytes in address order; that the cursor delivers byte k of the concatenation is not proved)',
     'the composition parse(format(x, mask)) == (x, mask) for unbounded length: proved as step lemmas + classification + brackets (induction stated, not machine-checked); '
     'machine-checked composition only for length <= 3 (quick) / <= 5 (thorough), labelled bounded',
     'numeral text -> value (strtoull/strtod/strtof), ALLOW_FILES on, src/ParseData.cc (command-line wrapper: file I/O only)',
@@ -58,10 +65,12 @@ MANIFEST = dict(
           'read, terminates, no exception, no file access without ALLOW_FILES, mask length == data length). format_data_string: quoted form iff every byte printable and strings not '
           'suppressed (loop contracts, ghost index/witness), reads inside [0,size), size bounds. Losslessness: per-byte step-simulation lemmas formatter-step -> parser-steps over all '
           'bytes / mask bytes / mask states / look-aheads (loop-free), quote-bracket and initial-state lemmas; composition machine-checked for lengths <= 3 (quick) / <= 5 (thorough) as a '
-          'bounded check. Hex dump: not decided.'),
+          'bounded check. Hex dump: only the line geometry of format_data (lines visited, blank columns, column = address & 15, byte count, address width, first/last line not '
+          'collapsible) for every start address/size -- loop contract + loop-free per-line contract on snippets of the loop; column text, highlighting, iovec cursor: not decided.'),
     note=('Trusted: cbmc/goto-instrument/solvers, the extractor, stubs/C09_str.h (string models incl. the append-only tail model, printf %02X, strto* end-pointer model), stubs/vstr.h, the spec macros. '
           'Assumes ALLOW_FILES off, sizes < 2^32, signed char. The induction from the step lemmas to arbitrary length is stated, not machine-checked. Two defects found and fixed: '
-          'backslash not escaped by the quoted form (fixes/C09-1), sign extension of bytes >= 0x80 inside \'...\' (fixes/C09-2).'),
+          'backslash not escaped by the quoted form (fixes/C09-1), sign extension of bytes >= 0x80 inside \'...\' (fixes/C09-2), hex-dump line loop wraps for ranges in the last 16 bytes of the '
+          'address space (fixes/C09-3).'),
     technique='function + loop contracts enforced with goto-instrument --dfcc on the extracted step function / loop skeleton / formatter, loop-free step-simulation lemmas on the extracted loop bodies, cbmc SAT portfolio; one bounded composition check',
 )
 CC = 'src/Strings.cc'
@@ -288,16 +297,20 @@ def lines_unit(ctx, src):
     var, init, cond, step, geom = (u.snippet(src, CC, FOR, group=k, rules=PF) for k in (1, 2, 3, 4, 5))
     interior = u.snippet(src, CC, r'if \(collapse_zero_lines && (\([^&]*\) && \([^&]*\)) &&\s*!memcmp', group=1, rules=PF)
     if var == 'line_start_address':
-        var_ok = 'line_start_address == FD_LINE_START(g_i)'
+        var_ok, bind = 'line_start_address == FD_LINE_START(g_i)', ''
     elif var == 'line_index':
-        var_ok = 'line_index == g_i'
+        var_ok, bind = 'line_index == g_i', 'uint64_t line_index = g_i;'
     else:
         raise ExtractionBreak('format_data: the line loop runs over %r (expected line_start_address or line_index)' % var)
-    u.raw('void fd_line_loop(uint64_t start_address, uint64_t total_size, uint64_t flags)\n{\n  %s\n  int width_digits;\n  %s\n  g_width = width_digits;\n'
-          '  g_i = 0; g_consumed = 0; g_hits = 0;\n  for (uint64_t %s = %s; %s; %s)\n'
-          '  __CPROVER_assigns(%s, g_i, g_consumed, g_hits, g_col, g_interior)\n  FD_LOOP_INVARIANT\n  __CPROVER_loop_invariant(%s)\n  __CPROVER_decreases(FD_NLINES - g_i)\n'
-          '  {\n    %s\n    g_interior = %s;\n    FD_LINE_CHECKS\n  }\n}'
-          % (pre, width, var, init, cond, step, var, var_ok, geom, interior))
+    if bind == '':
+        geom_l = 'uint64_t line_start_address = FD_LINE_START(g_i);\n    ' + geom
+    else:
+        geom_l = bind + '\n    ' + geom
+    u.raw('void fd_line_loop(uint64_t start_address, uint64_t total_size)\n{\n  %s\n  g_i = 0;\n  for (uint64_t %s = %s; %s; %s)\n'
+          '  __CPROVER_assigns(%s, g_i)\n  __CPROVER_loop_invariant(g_i <= FD_NLINES && %s)\n  __CPROVER_decreases(FD_NLINES - g_i)\n'
+          '  {\n    FD_LOOP_STEP\n  }\n}' % (pre, var, init, cond, step, var, var_ok))
+    u.raw('void fd_line(uint64_t start_address, uint64_t total_size, uint64_t flags)\n{\n  %s\n  int width_digits;\n  %s\n  g_width = width_digits;\n'
+          '  {\n    %s\n    g_interior = %s;\n    FD_LINE_CHECKS\n  }\n}' % (pre, width, geom_l, interior))
     u.functions.append({'file': CC, 'cxx_header': 'void format_data(std::function<void(const void*, size_t)>, const iovec*, size_t, uint64_t, const iovec*, size_t, uint64_t) :: line loop (header, geometry statements, width selection, interior test)',
                         'c_header': 'void fd_line_loop(uint64_t start_address, uint64_t total_size, uint64_t flags)', 'line': 0})
     u.write()
@@ -347,9 +360,11 @@ def plan(ctx):
         groups.append(Group(name='format_data_string.string_overload[%s]' % mn, harness='harness/C09/wrapper.c', entry='h_wrapper',
                             function='format_data_string(const std::string&, const std::string*, uint64_t)', enforce='format_data_string_str',
                             defines=d, min_post=3, replay=RT('overload')))
-    groups.append(Group(name='format_data.line_geometry', harness='harness/C09/lines.c', entry='h_lines', function='format_data (line loop)',
-                        enforce='fd_line_loop', loops=True, kind='loop-contract', timeout=300, min_post=8, first='cvc5',
-                        replay=Replay(driver='C09/datastring.cc', mode='hexdump', sources=ALL_LIB, small_define='VERIF_SMALL')))
+    HD = Replay(driver='C09/datastring.cc', mode='hexdump', sources=ALL_LIB, small_define='VERIF_SMALL')
+    groups.append(Group(name='format_data.line_loop', harness='harness/C09/lines.c', entry='h_line_loop', function='format_data (line loop header)',
+                        enforce='fd_line_loop', loops=True, kind='loop-contract', timeout=300, min_post=2, replay=HD))
+    groups.append(Group(name='format_data.line_geometry', harness='harness/C09/lines.c', entry='h_line', function='format_data (geometry statements of a line)',
+                        enforce='fd_line', timeout=300, min_post=8, replay=HD))
     SIM = 'harness/C09/sim.c'
     for entry, name, fn, mode in [('l_sim_quoted', 'roundtrip.step[quoted]', 'format_data_string quoted-form loop body / parse_data_string loop body', 'sim_quoted'),
                                   ('l_sim_hex', 'roundtrip.step[hex]', 'format_data_string hex-form loop body / parse_data_string loop body', 'sim_hex'),
@@ -371,6 +386,6 @@ def plan(ctx):
         groups.append(Group(name='roundtrip.bounded[len<=%d]' % n, harness='harness/C09/roundtrip.c', entry='b_roundtrip',
                             function='format_data_string / parse_data_string', kind='bounded', tier=tier, defines=['RT_N=%d' % n],
                             bound='all byte strings of length <= %d, all masks (or none), flags 0 and HEX_ONLY; text <= %d characters' % (n, 2 + 5 * n),
-                            cbmc_flags=['--unwind', str(unwind), '--unwinding-assertions'], timeout=600 if n == 3 else 1800, min_post=4,
+                            cbmc_flags=['--unwind', str(unwind), '--unwinding-assertions'], timeout=600 if n == 3 else 3600, min_post=4,
                             replay=RT('roundtrip')))
     return groups
